@@ -1,0 +1,83 @@
+//go:build verif
+// +build verif
+
+package connection
+
+// Verification hook (build tag "verif", test-only, adds no code to the broker): lets an external harness
+// observe what happens to the unacknowledged set when the packet identifier freed by an acknowledgement is
+// handed to the next message at the earliest possible moment - inside the release callback, which is where
+// the writer goroutine (woken by the freed quota) can get to.  The observation is written as JSON to the
+// file named by VERIF_ACK_OUT.
+
+import (
+	"encoding/json"
+	"io/ioutil"
+	"os"
+	"testing"
+
+	"github.com/VolantMQ/vlapi/mqttp"
+
+	"github.com/VolantMQ/volantmq/metrics"
+)
+
+type verifAckObs struct {
+	SameID   bool  `json:"sameId"`   // the second message got the identifier the first one had
+	Kept     bool  `json:"kept"`     // after the first acknowledgement the second message is registered as unacknowledged
+	Released bool  `json:"released"` // the second acknowledgement found its message
+	Quota    int32 `json:"quota"`    // send quota after both acknowledgements (1 at the start)
+}
+
+func TestVerifAckRelease(t *testing.T) {
+	out := os.Getenv("VERIF_ACK_OUT")
+	if out == "" {
+		t.Skip("VERIF_ACK_OUT not set")
+	}
+
+	w := newWriter()
+	w.metric = metrics.New().Packets()
+	w.flow.quota = 1
+	close(w.quit) // no writer goroutine: its pop is called by hand below
+
+	mk := func(tag byte) *mqttp.Publish {
+		p := mqttp.NewPublish(mqttp.ProtocolV50)
+		_ = p.Set("t", []byte{tag}, mqttp.QoS1, false, false)
+		return p
+	}
+
+	w.qos12Messages.Add(mk(1))
+	first := w.qos12PopPacket()
+	id1, _ := first.ID()
+	// the identifier counter of a connection that retransmits starts below the re-acquired identifier
+	w.flow.counter = uint32(id1) - 1
+
+	w.qos12Messages.Add(mk(2))
+
+	var second mqttp.IFace
+	w.pubOut.onRelease = func(o, n mqttp.IFace) {
+		w.onReleaseOut(o, n)
+		second = w.qos12PopPacket()
+	}
+
+	ack := func(id mqttp.IDType) bool {
+		m, _ := mqttp.New(mqttp.ProtocolV50, mqttp.PUBACK)
+		a := m.(*mqttp.Ack)
+		a.SetPacketID(id)
+		return w.pubOut.release(a)
+	}
+
+	obs := verifAckObs{}
+	ack(id1)
+	if second != nil {
+		id2, _ := second.ID()
+		obs.SameID = id2 == id1
+		_, obs.Kept = w.pubOut.messages.Load(id2)
+		w.pubOut.onRelease = w.onReleaseOut
+		obs.Released = ack(id2)
+	}
+	obs.Quota = w.flow.quota
+
+	raw, _ := json.Marshal(obs)
+	if err := ioutil.WriteFile(out, raw, 0o600); err != nil {
+		t.Fatal(err)
+	}
+}
